@@ -687,6 +687,9 @@ func (d *brokerDrv) Step(line string) string {
 			d.b.Srv.Publisher().Publish(msg)
 		case "term":
 			d.b.Srv.ClientService().TerminateSession(unesc(pos[1]))
+			if geti(m, "nowait", 0) == 1 {
+				return "ok" // what the termination makes the broker write shows up in the next op's output
+			}
 		case "expire":
 			d.b.Srv.VerifSessionExpireCheck()
 		case "backdate":
